@@ -7,6 +7,7 @@ import (
 	"fmt"
 	"strings"
 	"sync"
+	"sync/atomic"
 	"time"
 
 	"go.brendoncarroll.net/p2p"
@@ -288,6 +289,15 @@ func applyLayer(nd *Node, l Layer) (err error) {
 		}
 	case "dup":
 		nd.S, nd.A = dupSwarm{nd.S}, nil
+	case "odderr":
+		// a transport that reports its own shutdown with an error of its own (not ErrClosed)
+		oe := &oddErr{Swarm: nd.S}
+		if nd.A != nil {
+			oa := oddErrAsk{oddErr: oe, AskBidi: nd.A}
+			nd.S, nd.A = oa, oa
+		} else {
+			nd.S = oe
+		}
 	case "errclose":
 		// a transport whose Close reports an error (after really closing): layers above must still shut down
 		ec := &errClose{Swarm: nd.S}
@@ -530,6 +540,41 @@ type errClose struct{ Swarm }
 func (e *errClose) Close() error {
 	e.Swarm.Close()
 	return fmt.Errorf("transport reported an error while closing")
+}
+
+// oddErr is a transport whose Receive and ServeAsk report "transport is shut down" once it has been closed: a
+// non-nil error, as the Swarm contract demands, but not one that wraps ErrClosed.
+type oddErr struct {
+	Swarm
+	closed atomic.Bool
+}
+
+var errShutDown = fmt.Errorf("transport is shut down")
+
+func (e *oddErr) Receive(ctx context.Context, fn func(Msg)) error {
+	err := e.Swarm.Receive(ctx, fn)
+	if err != nil && e.closed.Load() {
+		return errShutDown
+	}
+	return err
+}
+
+func (e *oddErr) Close() error {
+	e.closed.Store(true)
+	return e.Swarm.Close()
+}
+
+type oddErrAsk struct {
+	*oddErr
+	AskBidi
+}
+
+func (e oddErrAsk) ServeAsk(ctx context.Context, fn func(context.Context, []byte, Msg) int) error {
+	err := e.AskBidi.ServeAsk(ctx, fn)
+	if err != nil && e.closed.Load() {
+		return errShutDown
+	}
+	return err
 }
 
 // dupSwarm is a datagram transport that delivers every datagram twice, as UDP may. Tell-only.
